@@ -12,6 +12,7 @@ PdProps/C11.lean.
   listing element — is for a visible object; `Output.no_trace_files`: no page file, anchor, search document
   or inventory line.
 * `Output.private_marked` / `public_unmarked`: the marker on the 9 listing rows.
+* `no_trace_named_file` (full since a3977d7), `private_marked_undocumentedSummary` (since fb55ab8).
 * Still false of the current code (open finding): the unlinked base nodes of classIndex.html
   (`no_trace_texts_partial` under `noHiddenBaseNames`, `no_trace_texts_counterexample`).
 * historical: `no_trace_counterexample_old` (DESIGN §8-11, before aaed9bd), `no_trace_counterexample_root_old`
@@ -115,7 +116,7 @@ theorem entry_visible {s : Sys} {r : Emit} (h : r ∈ requests s) (he : r.row.is
   case modIndex => exact ho.2.2.1
   case classIndex => exact ho.2.1
   case nameIndex => exact ho.2.1
-  case undoc => exact ho.2
+  case undoc => exact ho.2.1
   case indexRoots => exact ho.2.2
   case allDocs => exact ho.2.2
 
@@ -558,39 +559,83 @@ theorem no_trace_counterexample_old :
     (emits sHidden).all (fun e => e.target != 1) = true := by
   decide
 
-/-! ### two more places where the current code leaves something for an object that is not visible / not marked -/
+/-! ### files named after an object; the undocumented summary -/
 
-/-- a file named after an object (`<qualified name>.html`) is its page — or the single-root alias symlink -/
-theorem no_trace_named_file_partial {s : Sys} (w : WF s) {i : Nat} (hi : i < s.n)
-    (h : File.page (fullName s i) ∈ written s) :
-    visible s i = true ∨ File.page (fullName s i) ∈ aliasFiles s := by
+theorem fullName_of_orphan {s : Sys} {r : Nat} (h : (s.ob r).parent = none) : fullName s r = (s.ob r).name := by
+  unfold fullName
+  rw [pathAux]
+  simp [h, List.intercalate]
+
+/-- **C12** a file named after an object (`<qualified name>.html`) exists for a visible object only: it is
+its page, or the single-root alias symlink, which since a3977d7 is not created for a hidden root -/
+theorem no_trace_named_file {s : Sys} (w : WF s) {i : Nat} (hi : i < s.n)
+    (h : File.page (fullName s i) ∈ written s) : visible s i = true := by
   rcases (mem_written_iff s _).mp h with h | ⟨p, hp, he⟩ | h
   · rcases mem_summaryFiles_cases h with ⟨x, hx⟩ | ⟨hx, _⟩
     · cases hx
     · cases hx
-  · left
-    have hpv := visible_of_mem_pages hp
+  · have hpv := visible_of_mem_pages hp
     unfold pageFile at he
     split at he
     · cases he
     · injection he with he
       exact (w.names p i (visible_lt hpv) hi he) ▸ hpv
-  · exact .inr h
+  · unfold aliasFiles at h
+    split at h
+    · rename_i r hr
+      split at h
+      · simp at h
+      · rename_i hcond
+        simp only [Bool.or_eq_true, Bool.not_eq_true', not_or, Bool.not_eq_false] at hcond
+        obtain ⟨ρ, hρ, hρv⟩ := List.any_eq_true.mp hcond.2
+        split at h
+        · simp only [List.mem_singleton] at h
+          injection h with h
+          -- every root is named r; the visible root ρ therefore has the qualified name of i
+          have hname : (s.ob ρ).name = r := by
+            have : (s.ob ρ).name ∈ rootNames s := by
+              unfold rootNames
+              exact List.mem_eraseDups.mpr (List.mem_map.mpr ⟨ρ, hρ, rfl⟩)
+            rw [hr] at this
+            simpa using this
+          have hfull : fullName s ρ = fullName s i := by
+            rw [fullName_of_orphan (w.roots_parent ρ hρ), hname, h]
+          exact (w.names ρ i (w.roots_lt ρ hρ) hi hfull) ▸ hρv
+        · simp at h
+    · simp at h
 
-/-- current code (open finding `hidden-trace:page-file-alias`): `writeSummaryPages` creates the alias
-`<root>.html -> index.html` for a single root without testing its visibility; since a09aa28 index.html exists
-for a hidden single root (the IndexPage), so a file named after the hidden root leads somewhere. -/
-theorem no_trace_alias_counterexample :
+/-- historical (between a09aa28 and a3977d7): `writeSummaryPages` created the alias `<root>.html -> index.html`
+for a hidden single root too; index.html existed (the IndexPage), so a file named after the hidden root led
+somewhere. Now no such file exists. -/
+theorem no_trace_alias_counterexample_old :
     wf sSoloHidden = true ∧ visible sSoloHidden 0 = false ∧ fullName sSoloHidden 0 = ['s'] ∧
-    (written sSoloHidden).contains (.page ['s']) = true ∧ (aliasFiles sSoloHidden).contains (.page ['s']) = true := by
+    (aliasFilesOld sSoloHidden).contains (.page ['s']) = true ∧
+    -- fixed code
+    (written sSoloHidden).contains (.page ['s']) = false := by
   decide
 
-/-- current code (open finding `private-unmarked:undocumented-summary`): undoccedSummary.html has the
-"Toggle Private API" button but its entries carry no marker, whatever the privacy of the object
-(`sPlain`: the PRIVATE, undocumented class `m.K`). -/
-theorem private_marked_undoc_counterexample :
+/-- `UndocumentedSummaryPage.stuff` (since fb55ab8): the entry of a PRIVATE object — and of anything inside
+something private — carries the marker -/
+theorem private_marked_undocumentedSummary {s : Sys} {e : Emit} (h : e ∈ emits s) (hr : e.row = .undoc)
+    (hp : (s.ob e.target).privacy = .priv) : e.marked = some true := by
+  have key : ∀ r : Emit, r ∈ requests s → r.row = .undoc → r.marked = some (ctxPrivate s r.target) := by
+    intro r hr' hrow
+    have ho := origin hr'
+    simp only [Origin, hrow] at ho
+    exact ho.2.2
+  have hm : e.marked = some (ctxPrivate s e.target) := by
+    rcases mem_emits h with ⟨hr', _⟩ | ⟨_, _, r, hr', _, hrow, ht, hm⟩
+    · exact key e hr' hr
+    · rw [← hm, ← ht]; exact key r hr' (hrow ▸ hr)
+  rw [hm, ctxPrivate_of_private s _ (by simp [isPrivate, hp])]
+
+/-- historical (before fb55ab8): undoccedSummary.html had the "Toggle Private API" button but its entries
+carried no marker (`sPlain`: the PRIVATE, undocumented class `m.K`); now the entry is marked. -/
+theorem private_marked_undoc_counterexample_old :
     (sPlain.ob 1).privacy = .priv ∧
-    ((emits sPlain).any fun e => e.row == .undoc && e.target == 1 && e.marked == none) = true := by
+    ((undocRowsOld sPlain).any fun e => e.target == 1 && e.marked == none) = true ∧
+    -- fixed code
+    ((emits sPlain).filter fun e => e.row == .undoc && e.target == 1).all (fun e => e.marked == some true) = true := by
   decide
 
 /-! ### non-vacuity -/
